@@ -118,6 +118,64 @@ fn gen_reorder_groups(c: &mut Choices<'_>) -> Value {
     json!({"src": src, "opts": opts_to(&opts), "origin": "reorder-groups", "layout": 0})
 }
 
+/// One-line lists (arrays, call / macro / tuple arguments, struct literals, parameters, or-patterns,
+/// operator and method chains, also inside macro calls and macro definitions) of multi-byte and
+/// double-width elements, with max_width drawn from the window in which the line fits when
+/// measured in columns but not when measured in bytes (and a little around it).
+fn gen_wide_lists(c: &mut Choices<'_>) -> Value {
+    const CHARS: &[&str] = &["'ä'", "'ö'", "'é'", "'ß'", "'日'", "'本'", "'✓'", "'a'"];
+    const STRS: &[&str] = &["\"größe\"", "\"日本語\"", "\"naïve\"", "\"ü\"", "\"ab\""];
+    const IDENTS: &[&str] = &["größe", "名前", "данные", "élan", "x1"];
+    let kind = c.below(3);
+    let n = 3 + c.below(22);
+    let elems: Vec<String> = (0..n)
+        .map(|_| match kind {
+            0 => (*c.pick(CHARS)).to_string(),
+            1 => (*c.pick(STRS)).to_string(),
+            _ => (*c.pick(IDENTS)).to_string(),
+        })
+        .collect();
+    let list = elems.join(", ");
+    let stmt = match c.below(12) {
+        0 => format!("    check!([{list}]);"),
+        1 => format!("    let v = [{list}];"),
+        2 => format!("    call({list});"),
+        3 => format!("    m!({list});"),
+        4 => format!("    let t = ({list});"),
+        5 => format!("    let s = S {{ {} }};", elems.iter().enumerate().map(|(i, e)| format!("f{i}: {e}")).collect::<Vec<_>>().join(", ")),
+        6 => format!("    let v = vec![{list}];"),
+        7 => format!("    outer!(inner([{list}]));"),
+        8 if kind == 2 => format!("    let x = {};", elems.join(" + ")),
+        9 if kind == 2 => format!("    let y = {};", elems.iter().map(|e| format!("{e}()")).collect::<Vec<_>>().join(".")),
+        10 if kind != 2 => format!("    match q {{\n        {} => 1,\n        _ => 0,\n    }}", elems.join(" | ")),
+        _ => format!("    let r = obj.method([{list}], {});", elems[0]),
+    };
+    let src = match c.below(4) {
+        0 => format!("macro_rules! mm {{\n    () => {{\n    {}\n    }};\n}}\n", stmt.trim_start()),
+        1 if kind == 2 => format!("fn f({}) {{\n{stmt}\n}}\n", elems.iter().take(8).map(|e| format!("{e}: T")).collect::<Vec<_>>().join(", ")),
+        _ => format!("fn main() {{\n{stmt}\n}}\n"),
+    };
+    let first = stmt.lines().nth(if stmt.contains('\n') { 1 } else { 0 }).unwrap_or("");
+    let bytes = first.len();
+    let cols: usize = first.chars().map(|ch| if (ch as u32) >= 0x1100 { 2 } else { 1 }).sum();
+    let lo = cols.min(bytes).saturating_sub(6);
+    let hi = cols.max(bytes) + 6;
+    // the thresholds derived from max_width (array_width, fn_call_width, ...) scale the window
+    let scale = [100usize, 100, 60, 70][c.below(4)];
+    let w = ((lo + c.below(hi - lo + 1)) * 100 / scale).clamp(20, 200);
+    let mut opts: Opts = vec![("max_width".into(), w.to_string())];
+    if c.chance(1, 4) {
+        opts.push(("use_small_heuristics".into(), (*c.pick(&["Max", "Off"])).to_string()));
+    }
+    if c.chance(1, 5) {
+        opts.push(("indent_style".into(), "Visual".into()));
+    }
+    if c.chance(1, 6) {
+        opts.push(("hard_tabs".into(), "true".into()));
+    }
+    json!({"src": src, "opts": opts_to(&opts), "origin": "wide-lists", "layout": 0})
+}
+
 impl Property for C09 {
     fn id(&self) -> &'static str {
         "C09"
@@ -125,7 +183,7 @@ impl Property for C09 {
     fn params(&self, tier: Tier) -> Params {
         Params {
             cases: match tier {
-                Tier::Quick => 4_000,
+                Tier::Quick => 8_000,
                 Tier::Thorough => 100_000,
             },
             max_bytes: 1024,
@@ -133,7 +191,7 @@ impl Property for C09 {
         }
     }
     fn rule(&self) -> &'static str {
-        "corpus grid cells, generated programs and generated groups of reorderable declarations (names and aliases on which the ASCII order and the version sort disagree, the same name under several aliases) x random options (style_edition excluded from the draw); each case is formatted under style editions 2015, 2018, 2021 and 2024 by the working tree (in-process) and by the frozen reference build of the pinned sources; oracle: (a) the 2015/2018/2021 outputs of the working tree are identical, (b) for every released edition the working tree's output equals the reference output byte for byte whenever the reference formats without error; non-trivial = some output differs from the input; distinct by case content"
+        "corpus grid cells, generated programs and generated groups of reorderable declarations (names and aliases on which the ASCII order and the version sort disagree, the same name under several aliases) x random options, and one-line lists of multi-byte / double-width elements (arrays, arguments, struct literals, parameters, or-patterns, chains; also inside macro calls and definitions) at widths where the byte length and the column width of the line fall on different sides of max_width and of the limits derived from it (style_edition excluded from the draw); each case is formatted under style editions 2015, 2018, 2021 and 2024 by the working tree (in-process) and by the frozen reference build of the pinned sources; oracle: (a) the 2015/2018/2021 outputs of the working tree are identical, (b) for every released edition the working tree's output equals the reference output byte for byte whenever the reference formats without error; non-trivial = some output differs from the input; distinct by case content"
     }
     fn assumptions(&self) -> Vec<&'static str> {
         vec!["/verif/frozen is a byte copy of src/ and config_proc_macro/ at the audited commit, built with the same toolchain and profile; both sides run the same request through the same public API"]
@@ -149,6 +207,9 @@ impl Property for C09 {
     fn generate(&self, c: &mut Choices<'_>, _g: &GenCtx) -> Value {
         if c.chance(1, 4) {
             return gen_reorder_groups(c);
+        }
+        if c.chance(1, 4) {
+            return gen_wide_lists(c);
         }
         let p = gen_prog(c, &ProgSpace::default());
         let wild = c.weighted(&[3, 3, 2, 2]);
